@@ -19,5 +19,48 @@ def prop(pid, steps, assumptions=(), trusted=()):
     PROPS[pid] = {'id': pid, 'steps': steps, 'assumptions': list(assumptions), 'trusted': list(trusted)}
 
 
+CLOCK = 'clock model (DESIGN 2.7): Instant::now() returns an arbitrary instant; the single .elapsed() call of a public call returns clock_reading(instant) (uninterpreted); Duration obeys vstd partial_cmp_spec; no monotonicity assumed. Guard: at most one `.elapsed()` call in the extracted file, else exit 2'
+FEEDCLOCK = 'feed() never reads the clock (it only stamps Instant::now() into arrival_time, which the abstraction forgets): proved as part of the refinement clauses in the C12/C14 slices, guarded syntactically here'
+
 prop('C07', [v('v_cc14', 'C07')], [B1, B3], VERUS_TB)
 prop('C08', [v('v_cc14', 'C08')], [B1, B3], VERUS_TB)
+prop('C09', [v('v_msg', 'C09')], [B1], VERUS_TB)
+prop('C10', [v('v_nrpn', 'C10')], [B1, B3], VERUS_TB)
+prop('C11', [v('v_nrpn', 'C11')], [B1, B3], VERUS_TB)
+prop('C12', [v('v_poll', 'C12')], [B1, B3, CLOCK], VERUS_TB)
+prop('C13', [v('v_poll', 'C13')], [B1, B3, CLOCK, FEEDCLOCK], VERUS_TB)
+prop('C14', [v('v_poll', 'C14')], [B1, B3, CLOCK], VERUS_TB)
+prop('C15', [v('v_cc14', 'C15'), v('v_nrpn', 'C15'), v('v_poll', 'C15')], [B1, B3, CLOCK, LANG], VERUS_TB)
+prop('C16', [v('v_cc14', 'C16'), v('v_nrpn', 'C16'), v('v_poll', 'C16'), v('v_msg', 'C16')], [B1, B3, CLOCK], VERUS_TB)
+prop('C17', [v('v_cc14', 'C17'), v('v_nrpn', 'C17'), v('v_poll', 'C17')], [B1, B3, CLOCK, LANG], VERUS_TB)
+prop('C18', [v('v_msg', 'C18'), v('v_cc14', 'C18'), v('v_nrpn', 'C18'), v('v_poll', 'C18')], [B1, B3, CLOCK], VERUS_TB)
+
+# ----------------------------------------------------------------------------- manifest texts
+VNOTE = 'Trusted: Verus/Z3/vstd; the extractor (token round-trip check each run); bridge contracts B1-B3 (assumed in Verus, proved by Kani); clock model for the polling scanner; derived PartialEq structural. Listed in full in the evidence file (trusted_base, assumptions).'
+DESC = {
+ 'C07': {'engine': 'verus', 'ref': '5/C07', 'technique': 'Verus contracts on real encoder + scanner functions; inverse proved by a verified client over the contracts',
+         'text': 'Unbounded proof: constructor/accessor/encoder contracts of ControlChange14BitMessage and the one-step contracts of the real scanner functions are discharged by Verus; a verified client composes encoder and scanner contracts for every message and every invariant-satisfying prior scanner state.', 'note': VNOTE},
+ 'C08': {'engine': 'verus', 'ref': '5/C08', 'technique': 'Verus one-step refinement contracts on every scanner function + inductive history theorem',
+         'text': 'Unbounded proof over all histories: each real function refines a spec step function; Verus proves by induction on a ghost history that the representation relation to "most recent MSB since creation/reset" is preserved and every report equals the statement\'s expected().', 'note': VNOTE},
+ 'C09': {'engine': 'verus', 'ref': '5/C09', 'technique': 'Verus contracts on constructors, accessors, to_short_messages and build_* helpers against encpn',
+         'text': 'Unbounded proof: every constructor, accessor and the encoder (both byte orders) is proved equal to the slot specification written from the statement; slot-count lemma; controller constants are the extracted ones.', 'note': VNOTE},
+ 'C10': {'engine': 'verus', 'ref': '5/C10', 'technique': 'Verus verified clients composing encoder and scanner contracts; running forms by induction',
+         'text': 'Unbounded proof: for every message and every invariant-satisfying prior scanner state the encoder contract composed with the scanner step contracts yields None,...,Some(m); running forms by lemma + induction.', 'note': VNOTE},
+ 'C11': {'engine': 'verus', 'ref': '5/C11', 'technique': 'Verus one-step refinement contracts + inductive history theorem (num_msb/num_lsb/registered/v38)',
+         'text': 'Unbounded proof over all histories of feeds and resets: exact functional contracts on all eight per-channel functions; induction over ghost histories shows every report equals the statement\'s expected().', 'note': VNOTE},
+ 'C12': {'engine': 'verus', 'ref': '5/C12', 'technique': 'Verus refinement of all 13 polling-scanner functions to an abstract machine + unit lemmas + inductive sentence composition',
+         'text': 'Unbounded proof: every real function refines the abstract per-channel machine; unit lemma per documented form, composition theorem by induction over sentences, number selection from every state, encode-feed-late-poll corollary, noise erasure.', 'note': VNOTE},
+ 'C13': {'engine': 'verus', 'ref': '5/C13', 'technique': 'Verus contract of poll stated directly over the clock reading; timeout preservation on every mutator',
+         'text': 'Unbounded proof over every clock reading: poll acts iff a value is pending and not(reading < timeout); not-expired poll is the identity; LSB-only pending dropped silently; timeout never changes.', 'note': VNOTE},
+ 'C14': {'engine': 'verus', 'ref': '5/C14', 'technique': 'Verus refinement contracts + history observer with inductive coupling invariant',
+         'text': 'Unbounded proof: coupling invariant between machine state and history functions is inductive; justified/no_duplicate/no_loss lemmas give the safety clauses for all histories; channel stamp by contract.', 'note': VNOTE},
+ 'C15': {'engine': 'verus', 'ref': '5/C15', 'technique': 'Verus frame clauses on outer feed/poll of all three scanners + projection theorem by induction',
+         'text': 'Unbounded proof: frame clauses (only the element of the message\'s channel may change; report carries that channel; channel-less messages are the identity) on the real functions; projection theorem over Seq::filter proved for an arbitrary per-channel function.', 'note': VNOTE + ' Per-channel functionality: proved via the functional contracts when those hold, otherwise Rust value semantics.'},
+ 'C16': {'engine': 'verus', 'ref': '5/C16', 'technique': 'Verus identity-on-noise postconditions for all three scanners; predicate and constant contracts',
+         'text': 'Unbounded proof: non-contributing message => state structurally unchanged and nothing reported, for every state; the three predicates proved equal to their ranges; every *_LSB constant of the current source equals MSB+32.', 'note': VNOTE},
+ 'C17': {'engine': 'verus', 'ref': '5/C17', 'technique': 'Verus reset postcondition (loop invariant over iter_mut) == new_spec; verified client reset-vs-new',
+         'text': 'Unbounded proof: after reset every channel equals the fresh state (timeout kept); a verified client shows reset() and new() produce extensionally equal arrays.', 'note': VNOTE},
+ 'C18': {'engine': 'verus', 'ref': '5/C18', 'technique': 'Verus panic-freedom obligations (expect/unwrap/assert/index/overflow) under inductive invariants',
+         'text': 'Unbounded proof of panic freedom for every extracted function under the always-on invariants, which every mutator preserves; allocation frame by Kani (see evidence).', 'note': VNOTE},
+}
+NOT_APPLICABLE = {p: 'check under construction in this session (Kani unit not yet registered)' for p in ('C01', 'C02', 'C03', 'C04', 'C05', 'C06', 'C19')}
